@@ -33,6 +33,7 @@ META["explanation"] += ' R09.16 checked additions / multiplications whose operan
 META["explanation"] += ' R09.9 decides the collect() idioms (a Peekable whose peek() is Some on every path; `repeat(x).take(a - b)` under a > b) and, in the balance analysis, reports a path that answers Some(..) with only `x n` groups whose counts can all be 0 (witness). R09.5 is UNDECIDED when the translator does not build its result by pushes; the balance analysis refuses (UNDECIDED) paths on which a diff is built but not pushed. An update function written as a free function over the projected fields is recognised; its own rules are then not evaluated (UNDECIDED), the rest of the adapter is.'
 META["explanation"] += ' R09.17 no panic! / assert! of their own in the Head / Tail / Skip modules. Shared with C12: R12.1 / R12.2 (what into_parts hands to the next stage).'
 META["explanation"] += ' R09.18 secondary input fused: an input of the poll function whose end does not end the adapter (limit / count stream) is not polled again after it answered Ready(None) - the field is a fused type, or every poll site is guarded by a termination memory (a bool field written true only under that None edge). On the unchanged tree this re-derives the known finding F12 for Head, Tail and Skip. The typestate (R14.1) treats an input whose termination memory is true as ended.'
+META["explanation"] += ' Capture forwarding (facts normalisation): items looked up through a local closure are resolved to the buffer, so R09.15 / the balance analysis decide them.'
 
 
 def run(ctx):
